@@ -42,6 +42,9 @@ class PathRec:
     atomic_saves: int
     neg_out: int
     suppress_out: int
+    hide_in: object = False
+    hide_out: object = False
+    hide_saves: int = 0
     nodes: list = field(default_factory=list, repr=False)
     path: list = field(default_factory=list, repr=False)
 
@@ -90,6 +93,7 @@ def entry_state(flow: Flow, entry: dict, args: dict) -> tuple[St, LRef]:
     st = St()
     st.stack = entry.get("stack", ())
     st.tags = entry.get("tags", ())
+    st.hide = bool(entry.get("hide", False))
     st.frames = ()
     out = flow.newlist(st)
     for name, kind in args.items():
@@ -143,6 +147,7 @@ def summarise(flow: Flow, e: Exit, out: LRef, side: str, construct: str, variant
         dirty=flow.dirty(st), moved=st.cur != 0, stack_in=entry.get("stack", ()), stack_out=st.stack,
         frames_out=st.frames, tags_in=entry.get("tags", ()), tags_out=st.tags, atomic_out=st.atomic,
         atomic_saves=len(st.atomic_saves), neg_out=st.neg, suppress_out=st.suppress, nodes=flow.nodes, path=path,
+        hide_in=bool(entry.get("hide", False)), hide_out=st.hide, hide_saves=len(st.hide_saves),
     )
 
 
@@ -203,6 +208,8 @@ def _variant(params: dict, entry: dict) -> str:
         ps.append("stack=0")
     if entry.get("tags"):
         ps.append("tag_on_stack")
+    if entry.get("hide"):
+        ps.append("inside_atomic")
     return ",".join(ps)
 
 
